@@ -414,6 +414,23 @@ func main() {
 								os.MkdirAll(filepath.Dir(hf), 0o755)
 								os.WriteFile(hf, b[i:], 0o644)
 								hangInfo = " (wall-clock watchdog fired; goroutine stacks in " + hf + ")"
+								// a goroutine that is busy inside emulator code when the wall-clock
+								// watchdog fires (60 s of real time for one run) is an emulator that
+								// spins without ever reaching a schedule point: a violation of whatever
+								// property was running, not harness trouble
+								var hr struct {
+									Stacks string `json:"stacks"`
+								}
+								pre := filepath.Join(scratch, fmt.Sprintf("pre-%s-%d.json", prop, lastBegin))
+								if json.Unmarshal(b[i:], &hr) == nil && fileExists(pre) {
+									if where := emulatorSpin(hr.Stacks); where != "" {
+										msg := "the run did not end within 60 s of real time; a goroutine is busy inside emulator code without reaching a schedule point:\n" + where
+										recs = append(recs, runRecord{Seed: lastBegin, End: "process-wedged", Viol: &violation{Oracle: "process-death", Fp: "process-wedged:" + wedgeClass(where), Msg: msg}, Replay: pre})
+										j.from = lastBegin + 1
+										mu.Unlock()
+										continue
+									}
+								}
 							}
 						}
 						deaths = append(deaths, fmt.Sprintf("seed %d: worker ended without finishing its slice (%v)%s\n%s", lastBegin, err, hangInfo, tail(so, 15)))
@@ -766,6 +783,51 @@ func emulatorDeath(out string) bool {
 		return false
 	}
 	return false
+}
+
+// emulatorSpin: the stack of a goroutine that is running or runnable with its
+// innermost non-runtime frame in emulator code ("" if there is none).
+func emulatorSpin(stacks string) string {
+	for _, g := range strings.Split(stacks, "\n\n") {
+		lines := strings.Split(g, "\n")
+		if len(lines) < 2 || !strings.HasPrefix(lines[0], "goroutine ") {
+			continue
+		}
+		if !strings.Contains(lines[0], "[running") && !strings.Contains(lines[0], "[runnable") {
+			continue
+		}
+		for _, f := range lines[1:] {
+			if strings.HasPrefix(f, "\t") || strings.HasPrefix(f, " ") {
+				continue
+			}
+			if strings.HasPrefix(f, "runtime.") || strings.HasPrefix(f, "internal/") {
+				continue
+			}
+			if strings.HasPrefix(f, "github.com/jimsnab/go-redisemu.") && !strings.Contains(f, ".sim") {
+				if len(lines) > 12 {
+					lines = lines[:12]
+				}
+				return strings.Join(lines, "\n")
+			}
+			break
+		}
+	}
+	return ""
+}
+
+func wedgeClass(where string) string {
+	for _, f := range strings.Split(where, "\n")[1:] {
+		if strings.HasPrefix(f, "github.com/jimsnab/go-redisemu.") {
+			f = strings.TrimPrefix(f, "github.com/jimsnab/go-redisemu.")
+			if i := strings.IndexByte(f, '('); i > 0 && !strings.HasPrefix(f, "(") {
+				f = f[:i]
+			} else if j := strings.LastIndexByte(f, '('); j > 0 {
+				f = f[:j]
+			}
+			return f
+		}
+	}
+	return "unknown"
 }
 
 func deathClass(out string) string {
